@@ -30,6 +30,18 @@ def run(tier):
             for s_ in ([0, 1] if tier == "quick" else [0, 1, 2, 3]):
                 jobs.append((sg, 10 + s_, 1, [pair[0], pair[1]], 96, "C07"))
                 forced += 1
+    # every group once with its general position occupied (the last letter of the table: 'A' in group 47, which sorts before 'a')
+    from matid.data.symmetry_data import WYCKOFF_SETS as WS
+
+    general = 0
+    for sg in range(1, 231):
+        letters = [k for k in WS[sg] if k != "translations"]
+        mult = {l: len(WS[sg][l]["expressions"]) * (1 + len(WS[sg].get("translations", []))) for l in letters}
+        g = max(letters, key=lambda l: (mult[l], l.isupper(), l))
+        if mult[g] <= 96 and (tier == "thorough" or sg % 2 or len(letters) > 26):
+            jobs.append((sg, 30, 1, [g], 96, "C07"))
+            general += 1
+    run.notes["general_position_jobs"] = general
     run.notes["forced_normalizer_jobs"] = forced
     recs = symcommon.collect(run, jobs)
     symcommon.judge(run, recs, "C07", d, lambda r, c: (
